@@ -974,3 +974,107 @@ def plain_local_assignments(tree):
     _T().visit(tree)
     ast.fix_missing_locations(tree)
     return tree
+
+
+def _returns_to(stmts, target, rest=()):
+    """statement list in which `return v` reads `target = v` (or just evaluates v when the value is dropped) and what
+    follows a conditional return moves into the branches that fall through.  None when a return sits where this
+    rewriting does not apply (inside a loop, try or with)."""
+    out = []
+    stmts = list(stmts) + list(rest)
+    for i, s in enumerate(stmts):
+        if isinstance(s, ast.Return):
+            v = s.value or ast.Constant(value=None)
+            if target is None:
+                if not isinstance(v, (ast.Constant, ast.Name)):
+                    out.append(ast.copy_location(ast.Expr(value=v), s))
+            else:
+                out.append(ast.copy_location(ast.Assign(targets=[_name(target, ast.Store())], value=v), s))
+            return out or [ast.copy_location(ast.Pass(), s)]
+        has_ret = any(isinstance(n, ast.Return) for n in ast.walk(s)) and not isinstance(s, FUNCS + (ast.ClassDef,))
+        if not has_ret:
+            out.append(s)
+            continue
+        if not isinstance(s, ast.If):
+            return None
+        tail = stmts[i + 1:]
+        a = _returns_to(s.body, target, [_clone(x) for x in tail])
+        b = _returns_to(s.orelse, target, tail)
+        if a is None or b is None:
+            return None
+        new = ast.copy_location(ast.If(test=s.test, body=a, orelse=b), s)
+        out.append(new)
+        return out
+    if target is not None:
+        # falling off the end returns None
+        out.append(ast.Assign(targets=[_name(target, ast.Store())], value=ast.Constant(value=None), lineno=getattr(stmts[-1], 'lineno', 0) if stmts else 0, col_offset=0))
+    return out or [ast.Pass(lineno=0, col_offset=0)]
+
+
+def inline_worker(tree, entry, anchor):
+    """`entry` hands its per-item work to a private module-level function that makes the `anchor` call: read the
+    worker's body at the call site (parameters stand for the arguments, its other locals keep their names unless the
+    entry uses them too, a return is an assignment to the variable receiving the result).  Only a worker called from
+    one statement `x = worker(..)` / `worker(..)` with plain positional arguments is read this way."""
+    fns = {s.name: s for s in tree.body if isinstance(s, FUNCS)}
+    ent = fns.get(entry)
+    if ent is None:
+        return False
+
+    def calls_anchor(fn):
+        return any(isinstance(n, ast.Call) and isinstance(n.func, ast.Name) and n.func.id == anchor for n in ast.walk(fn))
+    changed = False
+    for _ in range(3):
+        if calls_anchor(ent):
+            break
+        sites = []
+        for body, i, s in _own_statements(ent):
+            c = s.value if isinstance(s, (ast.Assign, ast.Expr)) else None
+            if isinstance(c, ast.Call) and isinstance(c.func, ast.Name) and c.func.id in fns and c.func.id != entry and calls_anchor(fns[c.func.id]):
+                sites.append((body, i, s, c))
+        if len(sites) != 1:
+            break
+        body, i, s, c = sites[0]
+        h = fns[c.func.id]
+        n_uses = sum(1 for n in ast.walk(tree) if isinstance(n, ast.Name) and n.id == h.name)
+        a = h.args
+        if n_uses != 1 or h.decorator_list or a.vararg or a.kwarg or a.kwonlyargs or a.posonlyargs or c.keywords \
+                or len(c.args) != len(a.args) or any(isinstance(x, ast.Starred) for x in c.args):
+            break
+        if any(isinstance(n, (ast.Yield, ast.YieldFrom, ast.Global, ast.Nonlocal, ast.Lambda)) or (isinstance(n, FUNCS) and n is not h) for n in ast.walk(h)):
+            break
+        if isinstance(s, ast.Assign) and not (len(s.targets) == 1 and isinstance(s.targets[0], ast.Name)):
+            break
+        target = s.targets[0].id if isinstance(s, ast.Assign) else None
+        ent_names = {n.id for n in ast.walk(ent) if isinstance(n, ast.Name)} | {x.arg for x in ent.args.args}
+        params = [x.arg for x in a.args]
+        stored = {n.id for n in ast.walk(h) if isinstance(n, ast.Name) and isinstance(n.ctx, (ast.Store, ast.Del))}
+        names = {}
+        pre = []
+        for p, arg in zip(params, c.args):
+            simple = isinstance(arg, (ast.Name, ast.Constant)) or (isinstance(arg, ast.Attribute) and isinstance(arg.value, ast.Name))
+            if simple and p not in stored:
+                names[p] = arg
+            else:
+                new = p if p not in ent_names else '%s__%s' % (h.name.strip('_'), p)
+                names[p] = _name(new)
+                pre.append(ast.copy_location(ast.Assign(targets=[_name(new, ast.Store())], value=arg), s))
+        for v in sorted(stored - set(params)):
+            if v in ent_names:
+                names[v] = _name('%s__%s' % (h.name.strip('_'), v))
+        hb = [_clone(x) for x in h.body if not _is_doc(x)]
+        sub = _Subst(names=names, stores=True)
+        hb = [sub.visit(x) for x in hb]
+        new = _returns_to(hb, target)
+        if new is None:
+            break
+        body[i:i + 1] = pre + new
+        for n in ast.walk(ent):
+            if not hasattr(n, 'lineno') and isinstance(n, (ast.stmt, ast.expr)):
+                n.lineno = n.end_lineno = s.lineno
+                n.col_offset = n.end_col_offset = 0
+        tree.body.remove(h)
+        del fns[h.name]
+        ast.fix_missing_locations(ent)
+        changed = True
+    return changed
